@@ -711,6 +711,7 @@ func runC13Memory(ctx *core.Ctx) *core.Violation {
 	var owed []int // amounts not yet passed to Free, oldest first
 	ctx.NonT = true
 	ctx.Count("probe_memory_family_runs")
+	ctx.L.MuteDevLines = true // tens of thousands of read events: kept in the digest, not as trace text (the heap cross-check must not measure the harness's own log)
 
 	ops := t.Sub()
 	nextSample := L / 8
@@ -778,6 +779,9 @@ func runC13Memory(ctx *core.Ctx) *core.Violation {
 				if heapHalf == 0 && m.pos >= L/2 {
 					heapHalf = liveHeap()
 				}
+				if os.Getenv("VERIF_DEBUG_HEAP") != "" {
+					fmt.Fprintf(os.Stderr, "heap at %d: %d\n", m.pos, liveHeap())
+				}
 				continue
 			}
 			ctx.L.Ev("mem", int64(h))
@@ -787,6 +791,9 @@ func runC13Memory(ctx *core.Ctx) *core.Violation {
 				ctx.C["max_held_permille_of_bound"] = int64(h) * 1000 / int64(bound)
 			}
 			samples = append(samples, h)
+			if os.Getenv("VERIF_DEBUG_HEAP") != "" {
+				fmt.Fprintf(os.Stderr, "at %d: held(reflection)=%d liveHeap=%d\n", m.pos, h, liveHeap())
+			}
 			curCap := m.rv.FieldByName("buf").Cap()
 			caps = append(caps, curCap)
 			if capBound := 32*(size+(lag+1)*maxTok+maxLA) + 1024; curCap > capBound {
@@ -829,7 +836,13 @@ func runC13Memory(ctx *core.Ctx) *core.Violation {
 		if capEnd < 1 {
 			capEnd = 1
 		}
-		if end > half+half/2+512 && end/capEnd > (half/capHalf)*3/2+4 {
+		// ... and it accumulates steadily: both quarters of the second half add a comparable
+		// amount. A single step (one enlargement, or a sizing policy that settles on another
+		// buffer size halfway) is growth in one quarter only.
+		mid := samples[5]
+		d1, d2 := mid-half, end-mid
+		steady := d1 > 0 && d2 > 0 && d1 >= d2/4 && d2 >= d1/4
+		if steady && end > half+half/2+512 && end/capEnd > (half/capHalf)*3/2+4 {
 			return m.viol("memory-grows-with-stream", "lexer holds %d bytes at the end of a %d-byte stream but held %d at the half (samples at each eighth: %v) although every token was freed (discipline %d, lag %d)", end, L, half, samples, lagKind, lag)
 		}
 	}
